@@ -50,7 +50,7 @@ func base(d *dfu.Dialect) *schema.Schema {
 }
 
 var tableNames = map[string]bool{"t": true, "p": true, "u": true, "x": true}
-var typeNames = map[string]bool{"status": true, "mood": true}
+var typeNames = map[string]bool{"status": true, "mood": true, "status_new": true}
 
 type ident struct {
 	name  string
@@ -94,6 +94,9 @@ func idents(stmt string, q byte) []ident {
 }
 
 var reSchemaStmt = regexp.MustCompile(`(?i)^\s*(CREATE|DROP|ALTER)\s+(SCHEMA|DATABASE)\b`)
+var reRenameTo = regexp.MustCompile(`(?i)^\s*ALTER\s+TYPE\b.*\bRENAME\s+TO\s+("[^"]+")\."[^"]+"`)
+var reAlterType = regexp.MustCompile(`(?i)^\s*ALTER\s+TYPE\b`)
+var reRenameToPos = regexp.MustCompile(`(?i)\bRENAME\s+TO\s+`)
 var reIndexCtx = regexp.MustCompile(`(?i)^\s*(DROP\s+INDEX|ALTER\s+INDEX|COMMENT\s+ON\s+INDEX|REINDEX)`)
 
 var indexNames = map[string]bool{"idx_a": true, "uq_b": true, "idx_ab": true, "idx_c": true, "t_c_key": true, "idx_d_inc": true, "idx_d_part": true, "idx_d_hash": true, "p_k": true, "p_uid": true}
@@ -115,8 +118,20 @@ func checkStmt(d *dfu.Dialect, stmt, q string, bad func(string, ...any)) {
 			bad("qualifier %q requested but type %q is written bare (unquoted, unqualified) in: %s", q, n, stmt)
 		}
 	}
+	if m := reRenameTo.FindStringSubmatch(stmt); m != nil && q != "<none>" {
+		bad("the new name of a renamed type is written with a qualifier (%s), which the statement does not take: %s", m[1], stmt)
+	}
 	ids := idents(stmt, quote)
+	newName := -1 // ALTER TYPE a RENAME TO b: b is a bare name by syntax
+	if reAlterType.MatchString(stmt) {
+		if loc := reRenameToPos.FindStringIndex(stmt); loc != nil {
+			newName = loc[1]
+		}
+	}
 	for _, id := range ids {
+		if id.start == newName {
+			continue
+		}
 		isTab, isType := tableNames[id.name], typeNames[id.name]
 		isIdx := d == dfu.Postgres && indexNames[id.name] && reIndexCtx.MatchString(stmt)
 		if !isTab && !isType && !isIdx {
@@ -235,6 +250,41 @@ func Eval(c Case) (problems []string, planErr string, nstmts int) {
 				&schema.DropIndex{I: schema.NewIndex("idx_a").AddColumns(x.Columns[0])},
 			}},
 		}
+	case "drop_fk_to_other_schema", "modify_fk_from_other_schema":
+		// the desired table has no foreign key to another schema any more, the current one has: the
+		// statement that drops it is fine, its reverse would name a table of this schema.
+		other := schema.New("other_schema")
+		parent := schema.NewTable("parent").SetSchema(other).AddColumns(schema.NewIntColumn("id", "int"))
+		parent.SetPrimaryKey(schema.NewPrimaryKey(parent.Columns[0]))
+		other.AddTables(parent)
+		tt := dfu.T(to, "u")
+		old := schema.NewForeignKey("u_parent").SetTable(tt).AddColumns(tt.Columns[0]).SetRefTable(parent).AddRefColumns(parent.Columns[0])
+		if c.Kind == "drop_fk_to_other_schema" {
+			changes = []schema.Change{&schema.ModifyTable{T: tt, Changes: []schema.Change{&schema.DropForeignKey{F: old}}}}
+		} else {
+			pt := dfu.T(to, "p")
+			now := schema.NewForeignKey("u_parent").SetTable(tt).AddColumns(tt.Columns[0]).SetRefTable(pt).AddRefColumns(pt.Columns[0])
+			tt.AddForeignKeys(now)
+			changes = []schema.Change{&schema.ModifyTable{T: tt, Changes: []schema.Change{&schema.ModifyForeignKey{From: old, To: now, Change: schema.ChangeRefTable}}}}
+		}
+		wantErr = true
+	case "rename_table_across_schemas":
+		other := schema.New("other_schema")
+		moved := schema.NewTable("x").SetSchema(other).AddColumns(schema.NewIntColumn("id", "int"))
+		changes = []schema.Change{&schema.RenameTable{From: dfu.T(from, "u"), To: moved}}
+		wantErr = true
+	case "rename_enum":
+		// an enum type of this schema is renamed (next to a new one): the type is referenced like in
+		// every other statement; the new name is not qualified (ALTER TYPE .. RENAME TO takes a bare name).
+		if d != dfu.Postgres {
+			return nil, "not modelled", 0
+		}
+		e1 := &schema.EnumType{T: "status", Values: []string{"a", "b"}, Schema: to}
+		e2 := &schema.EnumType{T: "status_new", Values: []string{"a", "b"}, Schema: to}
+		changes = []schema.Change{
+			&schema.AddObject{O: &schema.EnumType{T: "mood", Values: []string{"x"}, Schema: to}},
+			&schema.RenameObject{From: e1, To: e2},
+		}
 	case "fk_to_other_schema":
 		// a table of this schema with a foreign key to a table of another schema: written without the
 		// qualifier, the reference would name a table of this schema.
@@ -311,7 +361,7 @@ func cases(tier string) []Case {
 	for _, d := range []*dfu.Dialect{dfu.MySQL, dfu.Postgres} {
 		for _, q := range quals {
 			for _, m := range modes {
-				for _, k := range []string{"create_all", "drop_all", "two_schemas", "two_schemas_drop_modify", "enum_in_other_schema", "fk_to_other_schema", "schemaless_tables", "add_schema", "drop_schema", "modify_schema"} {
+				for _, k := range []string{"create_all", "drop_all", "two_schemas", "two_schemas_drop_modify", "enum_in_other_schema", "fk_to_other_schema", "schemaless_tables", "rename_enum", "drop_fk_to_other_schema", "modify_fk_from_other_schema", "rename_table_across_schemas", "add_schema", "drop_schema", "modify_schema"} {
 					cs = append(cs, Case{d.Name, k, nil, q, m})
 				}
 				es := dfu.Edits(d)
